@@ -1,18 +1,40 @@
 #!/bin/bash
-# runs every stored seeded change against the check of its own property (plus the cross checks listed below),
-# writes seeded/MATRIX.txt; leaves /repo clean. Evidence files are overwritten: run tools_runall.sh afterwards.
+# Applies every stored seeded change to /repo (git apply), runs the check of its own property (plus the cross checks listed below),
+# undoes it (git checkout), and writes seeded/MATRIX.txt. Then every replay file produced under a seed is re-run on the CLEAN tree:
+# a replay that still "confirms" there confirms for the wrong reason (REPLAY-CONFIRMS-ON-CLEAN-TREE lines).
+# Evidence files are overwritten: run tools_runall.sh afterwards.   usage: tools_seedmatrix.sh [id-glob]
 cd /verif
+glob=${1:-C*-*}
 out=seeded/MATRIX.txt
-: > $out
-declare -A EXTRA=( [C02-1]="C03" [C13-1]="C03" [C11-2]="C09" [C04-1]="C01" [C01-2]="C04" )
-for d in seeded/C*-*; do
+[ "$glob" = "C*-*" ] && : > $out
+keep=$(mktemp -d /tmp/seedreplays.XXXXXX)
+declare -A EXTRA=( [C02-1]="C03" [C13-1]="C03" [C11-2]="C09" [C04-1]="C01" [C01-2]="C04" [C01-4]="C04" [C15-3]="C05" [C06-3]="C08" [C08-5]="C04" )
+for d in seeded/$glob; do
+  [ -f $d/patch.diff ] || continue
   id=$(basename $d); prop=${id%-*}
   for p in $prop ${EXTRA[$id]:-}; do
-    res=$(./tools_seed.sh run $id $p quick 2>&1)
+    git -C /repo apply /verif/seeded/$id/patch.diff || { echo "$id apply failed" | tee -a $out; continue; }
+    res=$(./check $p --tier quick 2>&1 | grep -E "VIOLATION|UNDECIDED|CHECKER|-> exit" | cut -c1-300)
+    mkdir -p $keep/$id-$p; cp evidence/replay/$p-*.json $keep/$id-$p/ 2>/dev/null
+    git -C /repo checkout -- .
     ex=$(echo "$res" | grep -o "exit [0-9]" | tail -1)
-    first=$(echo "$res" | grep VIOLATION | head -1 | sed 's/.*obligation=//' | cut -c1-150)
     n=$(echo "$res" | grep -c VIOLATION)
-    echo "$id check=$p -> $ex violations=$n first=[$first]" | tee -a $out
+    nf=$(echo "$res" | grep VIOLATION | grep -vc "no-failing-input-found")
+    obs=$(echo "$res" | grep VIOLATION | sed 's/.*obligation=//' | cut -c1-90 | head -3 | tr '\n' ';')
+    echo "$id check=$p -> $ex violations=$n natively-confirmed=$nf [$obs]" | tee -a $out
   done
 done
 git -C /repo status --short | grep -v '^??' && echo "REPO NOT CLEAN"
+for f in $keep/*/*.json; do
+  [ -f "$f" ] || continue
+  r=$(/venv/bin/python /verif/replay.py $f 2>/dev/null | tail -1)
+  if echo "$r" | grep -q '"confirmed": true'; then
+    ob=$(python3 -c "import json,sys;print(json.load(open(sys.argv[1]))['obligation'])" $f)
+    kf=$(python3 -c "
+import json,sys
+ob=sys.argv[1]
+print(any(e.get('status')=='finding' and ob in (e.get('obligation') or '') for e in json.load(open('/verif/known_findings.json'))['entries']))" "$ob")
+    [ "$kf" = "True" ] || echo "REPLAY-CONFIRMS-ON-CLEAN-TREE $(basename $(dirname $f)) $ob :: $(echo $r | cut -c1-200)" | tee -a $out
+  fi
+done
+rm -rf $keep
